@@ -1,7 +1,8 @@
 #!/usr/bin/env python3
 """Regenerates MANIFEST.json from props.json (single source of truth for what is claimed)."""
 import json, subprocess
-P = json.load(open('/verif/props.json'))
+import os
+P = {f[:-5]: json.load(open('/verif/props/'+f)) for f in sorted(os.listdir('/verif/props')) if f.endswith('.json')}
 allp = [json.loads(l)['id'] for l in open('/verif/properties.jsonl')]
 hooks = subprocess.run(['git', '-C', '/repo', 'log', '--format=%H %s'], capture_output=True, text=True).stdout.split('\n')
 hook_commits = [l.split()[0] for l in hooks if l and 'verif hook' in l]
